@@ -2,6 +2,15 @@
 import core, gen, frames as F
 from props.base import PropBase
 
+def may_be_frame(j):
+    """a line with 14/28 (or 26/40) hex digits whose format fits that length may be a frame by C02: such a line is not junk"""
+    d = "".join(chr(c) for c in j if chr(c) in "0123456789abcdefABCDEF")
+    if len(d) in (26, 40):
+        d = d[12:]
+    if len(d) not in (14, 28):
+        return False
+    return (int(d[:2], 16) >> 3 < 16) == (len(d) == 14)
+
 def junk_lines(rng):
     big = bytes(rng.randrange(256) for _ in range(3000)).replace(b"\n", b"x") * 25     # > 64 KiB, no newline
     f = gen.rand_frame(rng, "tc11", 0x123456)
@@ -29,14 +38,6 @@ def junk_lines(rng):
     for kind in ("df4", "df11", "df0"):
         h = gen.rand_frame(rng, kind, 0x3C0000 + rng.randrange(1 << 10))
         cand += [(h + h).encode(), ("*" + h + h + ";").encode()]
-    def may_be_frame(j):
-        # a line with 14/28 (or 26/40) hex digits whose format fits that length may be a frame by C02: such a line is not junk
-        d = "".join(chr(c) for c in j if chr(c) in "0123456789abcdefABCDEF")
-        if len(d) in (26, 40):
-            d = d[12:]
-        if len(d) not in (14, 28):
-            return False
-        return (int(d[:2], 16) >> 3 < 16) == (len(d) == 14)
     return [j for j in cand if not may_be_frame(j)]
 
 class C13(PropBase):
@@ -59,13 +60,20 @@ class C13(PropBase):
             clean = [styled(gen.rand_frame(rng, rng.choice(gen.FORMATS), rng.choice(addrs))) for _ in range(rng.randrange(20, 80))]
             mixed = list(clean)
             jl = junk_lines(rng)
+            jl_big = max(jl, key=len)
             nonutf_before_valid = False
             if c % 3 == 0:
                 # the very first bytes of the stream look like another protocol (Beast binary escape + type, BOM, gzip, HTTP, JSON, SBS)
                 mixed.insert(0, rng.choice([b"\x1a1\x00\x01", b"\x1a2abc", b"\x1a3\xff\xff", b"\x1a4", b"\xef\xbb\xbf", b"\x1f\x8b\x08", b"GET / HTTP/1.1",
                                             b"{\"now\":1}", b"MSG,3,1,1", b"#", b"\x00\x00"]))
-            for _ in range(rng.randrange(1, 15)):
-                j = rng.choice(jl)
+            # binary noise of a few hundred to a few thousand bytes without a line end (what a feed in another protocol looks like),
+            # in every stream; the 75 KB line in every fifth
+            forced = [bytes(rng.choice([rng.randrange(128, 256), rng.randrange(128, 256), rng.randrange(1, 128)]) for _ in range(rng.choice([300, 511, 512, 513, 700, 1500, 3000]))).replace(b"\n", b"x")]
+            forced = [j for j in forced if not may_be_frame(j)]
+            if c % 5 == 0:
+                forced.append(jl_big)
+            picks = forced + [rng.choice(jl) for _ in range(rng.randrange(1, 15))]
+            for j in picks:
                 pos = rng.randrange(len(mixed) + 1)
                 mixed.insert(pos, j)
                 try:
